@@ -152,14 +152,13 @@ def _only_set_items_missing(case):
 
 
 def k1(case):
-    """a set member string spells the serialisation of a non-string member of the other side"""
+    """a set member string spells the serialisation of a non-string set member (of either side)"""
     if case.get("clause") != "result differs from the specification" or not _only_set_items_missing(case):
         return False
     t1, t2 = eval(case["t1"]), eval(case["t2"])
-    m1, m2 = _set_members(t1, []), _set_members(t2, [])
-    tags1 = {tag_text(x) for x in m1} - {None}
-    tags2 = {tag_text(x) for x in m2} - {None}
-    return any(isinstance(x, str) and x in tags2 for x in m1) or any(isinstance(x, str) and x in tags1 for x in m2)
+    members = _set_members(t1, []) + _set_members(t2, [])
+    tags = {tag_text(x) for x in members} - {None}
+    return any(isinstance(x, str) and x in tags for x in members)
 
 
 def k2(case):
